@@ -314,10 +314,22 @@ def run_case(case: Dict[str, Any]) -> Dict[str, Any]:
     if res_nf is not None:
         ident = f"compose_nf_then_same|{base}"
         ref2 = Ref(res_nf)
+        before2 = _snapshot(res_nf)
         res = call(ident, prune_same_scale_tensors, res_nf, 2.0**-8)
         steps += 1
-        if res is not None:
+        if _snapshot(res_nf) != before2 or res is res_nf:
+            viol.append({"key": ident + "|input_graph_modified", "msg": "input = the result of prune_non_float_tensors (a graph no module owns)\n" + src})
+        elif res is not None:
             viol += _check_result(ref2, res, _ref_same_scale(ref2, 2.0**-8, {n.name for n in res.nodes}), ident, src)
+    # ---- the copying helpers on a graph that no GraphModule owns (the caller's own deep copy of scales_graph())
+    for hname, fn_, extra in (("non_float", prune_non_float_tensors, ()), ("same_scale", prune_same_scale_tensors, (2.0**-2,))):
+        gcopy = copy.deepcopy(graph)
+        before3 = _snapshot(gcopy)
+        ident = f"{hname}|on_detached_copy|{base}"
+        res = call(ident, fn_, gcopy, *extra)
+        steps += 1
+        if _snapshot(gcopy) != before3 or res is gcopy:
+            viol.append({"key": ident + "|input_graph_modified", "msg": src})
     # ---- selective pruning: every subset of distinct targets of size <= 2, and the full set
     targets = []
     for n in graph.nodes:
